@@ -568,6 +568,7 @@ Proof.
   destruct (pid =? protocol_hyperlane) eqn:E.
   - apply Z.eqb_eq in E. destruct (is_ok (tattr_validate t)); [|discriminate].
     destruct (is_ok (hyp_validate token domain rcp hook md)); [|discriminate]. cbn [andb].
+    destruct (is_ok (hyp_fee_validate fd fa)); [|discriminate]. cbn [andb].
     destruct (cfg_hyp_token cfg token) as [o|]; [|discriminate].
     destruct (String.eqb o (t_ddenom t)) eqn:E2; [|discriminate]. apply String.eqb_eq in E2. subst o.
     intros H; inversion H. auto.
